@@ -11,7 +11,7 @@ class C03(ProgProp):
     id = "C03"
     report = ("C03", "MODEL")
     cfg = {"p_sync": 0.06, "p_try": 0.06, "p_fault": 0.08, "p_create": 0.3, "p_ref": 0.3, "p_container": 0.45,
-           "item_faults": 0.03, "flush_faults": 0.05, "flush_cancels": 0.3, "p_item_value_sync": 0.15, "p_ext_tasks": 0.1}
+           "item_faults": 0.03, "flush_faults": 0.05, "flush_cancels": 0.3, "p_item_value_sync": 0.15, "p_ext_tasks": 0.1, "flush_reenter": 0.3}
 
     def gen(self, rng, tier, k):
         if k % 8 == 7:
@@ -26,6 +26,14 @@ class C03(ProgProp):
             return {"deep": shape, "n": n, "leaf": rng.choice(["value", "item", "error", "sync", "sync"]),
                     "catch_at": rng.choice([None, None, 0, 1, 7]), "conv": rng.choice(["call", "value"]),
                     "shared": rng.random() < 0.3}
+        if k % 8 == 5:
+            from .. import gen as g
+            spec = g.motif_cancel_scheduled(rng)
+            spec["keep_prio"] = True
+            return self.motif_case(rng, tier, spec)
+        if k % 64 == 1:
+            return {"deep": "wide", "n": rng.choice([4100, 4500, 6000]) if (tier == "thorough" or rng.random() < 0.5) else rng.choice([30, 1025, 2000]),
+                    "leaf": rng.choice(["value", "item"]), "catch_at": None, "conv": rng.choice(["call", "value"]), "shared": False}
         if k % 8 == 3:
             from .. import gen as g
             spec = g.motif_dup_ref(rng)
@@ -130,6 +138,36 @@ class C03(ProgProp):
                     expected = ("V", n)
                 expected_flushes = 1 if leaf in ("item", "sync") else 0
                 thunk = (lambda: chain(n)) if case.get("conv") == "call" else (lambda: chain.asynq(n).value())
+            elif shape == "wide":
+                n = int(case.get("n", 10))
+                order = []
+
+                @A.asynq()
+                def kid(i):
+                    mark_start(i)
+                    order.append(i)
+                    if leaf == "item":
+                        yield item()
+                    return i
+
+                @A.asynq()
+                def top():
+                    mark_start("top")
+                    kids = [kid.asynq(i) for i in range(n)]
+                    vals = yield (kids if n % 2 else tuple(kids))
+                    for kf in kids:
+                        if not kf.is_computed():
+                            out.append(("resumed-while-uncomputed", "a task yielding %d tasks was resumed before all of them were computed" % n))
+                            break
+                    resumes["top"] = resumes.get("top", 0) + 1
+                    if order != list(range(n)):
+                        first = next(j for j in range(len(order)) if order[j] != j)
+                        out.append(("start-order", "%d tasks yielded together did not start in the order written: position %d was taken by task %d" % (n, first, order[first])))
+                    return sum(vals)
+                total = n + 1
+                expected = ("V", n * (n - 1) // 2)
+                expected_flushes = 1 if leaf == "item" else 0
+                thunk = (lambda: top()) if case.get("conv") == "call" else (lambda: top.asynq().value())
             elif shape == "tree":
                 fan, depth = case.get("n", (2, 3))
 
